@@ -140,6 +140,12 @@ def run(ctx, rep):
         n_prim += _primsem.check(F, rep, "C06.primitive-semantics", "folder", tr, T.fold_fn(tr))
         n_prim += _primsem.check(F, rep, "C06.primitive-semantics", "interpreter", tr, T.rt_fn(tr))
     rep.floor("C06.primitive-semantics arithmetic sites", n_prim, 100)
+    # both sides make `<<` exact-or-fail (a folder that keeps the truncated value disagrees with an interpreter that fails, and vice versa)
+    from props import _shifts
+    _shifts.run(F, rep, "C06.exact-shift", "compiler", "folder")
+    _shifts.run(F, rep, "C06.exact-shift", "bytecode", "interpreter")
+    # MIN % -1: the interpreter's side is decided by evaluation in C05.extremes; the folder's by this structural rule
+    _shifts.run_rem(F, rep, "C06.exact-rem", "compiler", "folder")
 
     # ---- (c) ---------------------------------------------------------------------------------------------
     for op in ("Add", "Subtract", "Multiply", "Divide", "Modulo", "BitwiseLs", "BitwiseRs"):
@@ -153,6 +159,21 @@ def run(ctx, rep):
                 nm = mir.strip_generics(c.callee())
                 if re.search(r"core::num::<impl (i32|i128|u8)>::checked_", nm):
                     checked += 1
+                elif re.match(r"<(i32|i128|u8) as (?!core::|std::)", nm):
+                    # a helper the crate defines on the number type (`<i32 as ExactShl>::exact_shl`): checked iff it returns an Option and its
+                    # own body is built on a checked_* primitive with nothing unchecked beside it
+                    h = None
+                    for nm2 in [c.callee()] + sorted(c.names):
+                        h = F.fn(nm2)
+                        if h is not None:
+                            break
+                    hb = ([h] + F.closures_of(h)) if h is not None else []
+                    inner = [mir.strip_generics(c2.callee()) for g2 in hb for c2 in g2.calls()]
+                    if h is not None and h.locals[0].startswith("core::option::Option<") and any(re.search(r"core::num::<impl (i32|i128|u8)>::checked_", x) for x in inner) \
+                            and not any(re.search(r"core::num::<impl (i32|i128|u8)>::(wrapping_|overflowing_|unchecked_|saturating_)", x) for x in inner):
+                        checked += 1
+                    else:
+                        unchecked.append((nm, c.span))
                 elif re.search(r"core::ops::arith::(Add|Sub|Mul|Div|Rem)", nm) and re.search(r"\b(i32|i128|u8)\b", nm):
                     unchecked.append((nm, c.span))
                 elif re.search(r"core::num::<impl (i32|i128|u8)>::(wrapping_|overflowing_|unchecked_|saturating_)", nm):
